@@ -21,16 +21,16 @@ TECHNIQUE = ("Coq proofs about the capacity-instrumented Gallina model of extrac
 LEVEL_TEXT = ("see coq/Props/Properties_C03.v: c03_decode_safe (every wf schema, every byte string < 2^32, Length/data pairs "
               "included: Ok or a library exception -- no overrun, no uninitialised read, no Diverge, no Fuel), "
               "c03_decode_total, c03_extract_element_safe, c03_extract_fixed_width_safe, c03_encode_safe_partial, "
-              "c03_fast_atoi_safe_partial; refutations c03_encode_overflow_refuted, c03_fast_atoi_ub_refuted, "
+              "c03_fast_atoi_safe, c03_fast_atoi_agrees_with_orig; refutations c03_encode_overflow_refuted, "
               "c03_datetime_ticks_refuted; on the pre-repair definitions c03_val_overflow_orig_refuted, "
               "c03_header_overflow_orig_refuted, c03_group_hang_orig_refuted, c03_fixed_width_orig_refuted, "
-              "c03_datetime_ub_orig_refuted, c03_chksum_align_orig_refuted")
-LEVEL_NOTE = ("Partial: output[] of encode(f8String&), fast_atoi's missing range test and the 64-bit tick product of the "
+              "c03_datetime_ub_orig_refuted, c03_chksum_align_orig_refuted, c03_fast_atoi_ub_orig_refuted")
+LEVEL_NOTE = ("Partial: output[] of encode(f8String&) and the 64-bit tick product of the "
               "date/time constructors still violate the property (known findings). Memory safety of the REAL code is not "
               "proved: it is observed under ASan/UBSan on the generated stream and tied to the model's capacity checks. "
               "Float parsers belong to C08; date/time texts in decoded messages are canonical or predicted UB (garbage "
               "dates are probed through DTPARSE only, their printed value is not modelled).")
-DESIGN_REF = "DESIGN.md section 4, Codec group, C03; findings F06 (repaired d48d8ce + ce1e2cc), F07 (open), F08 (repaired a0d41df), F09 (fast_atoi narrowed by a8219b1, checksum load repaired 9d9ce26), date/time (repaired da4ab8c, tick product open)"
+DESIGN_REF = "DESIGN.md section 4, Codec group, C03; findings F06 (repaired d48d8ce + ce1e2cc), F07 (open), F08 (repaired a0d41df), F09 (fast_atoi repaired a8219b1 + 1965750, checksum load repaired 9d9ce26), date/time (repaired da4ab8c, tick product open)"
 PROPS_FILE = "Props/Properties_C03.v"
 COQ_TARGETS = ["Props/Properties_C03.vo", "Extract/Extract_C03.vo"]
 TRUSTED_BASE = ["Coq 8.16.1 kernel (coqc), vm_compute for the witnesses", "Extraction with ExtrOcamlBasic, no Extract Constant; OCaml 4.13.1",
@@ -41,8 +41,8 @@ TRUSTED_BASE = ["Coq 8.16.1 kernel (coqc), vm_compute for the witnesses", "Extra
                 "harness/h_c03.cpp (fork isolation, crash summary from the sanitizer report, CPU/RSS hang detection) + "
                 "harness/h_codec.cpp + meta_dump.hpp; ocaml/prelude.ml + ocaml/c03_driver.ml; vlib/codecgen.py + this suite"]
 ASSUMPTIONS = ["ASan reports the first write past a stack array (redzones >= 32 bytes): an overrun never goes unnoticed",
-               "the model follows /repo 094581d (extract_element and extract_element_fixed_width bounded, decode_group leaves "
-               "its loop on an empty element, fast_atoi with sign and without shifts, memcpy word loads in calc_chksum, "
+               "the model follows /repo 1965750 (extract_element and extract_element_fixed_width bounded, decode_group leaves "
+               "its loop on an empty element, fast_atoi with sign, accumulating in the unsigned type, memcpy word loads in calc_chksum, "
                "date/time parsers without shifts and with a clamped month)",
                "texts of float/date/time typed fields in generated inputs are the unchanged canonical texts of a valid "
                "message (their parsers are C08/C09's subject) or texts for which the model predicts UB in parse_decimal / "
@@ -97,7 +97,7 @@ ENV = {"ASAN_OPTIONS": "detect_leaks=0:abort_on_error=0:halt_on_error=1:allocato
 def risky(case, rest):
     """Run the case in a forked child?  Exactly those expected to end abnormally (a miss only costs
     a restart of the harness: the culprit is then re-run isolated)."""
-    if case.origin != "gen" or case.cls.startswith(("ub-int", "ub-date")):
+    if case.origin != "gen" or case.cls.startswith("ub-date"):
         return True
     w = rest.split(" ")
     try:
@@ -311,21 +311,16 @@ def tokens(data):
 
 
 def py_atoi(txt):
-    """fast_atoi<int> since /repo a8219b1 under UBSan (same definition as Bounds.atoi_run):
-    (ub, value)."""
+    """fast_atoi<int> since /repo 1965750: accumulation in unsigned (wraps), sign applied at the end:
+    (ub = False, value)."""
     t = txt.split(b"\0")[0]
     neg = t[:1] == b"-"
     r = 0
     for ch in (t[1:] if neg else t):
-        m = r * 10
-        if not -2 ** 31 <= m < 2 ** 31:
-            return True, r
-        d = (ch - 256 if ch >= 128 else ch) - 48
-        r2 = m - d if neg else m + d
-        if not -2 ** 31 <= r2 < 2 ** 31:
-            return True, r
-        r = r2
-    return False, r
+        r = (r * 10 + (ch - 256 if ch >= 128 else ch) - 48) % 2 ** 32
+    if neg:
+        r = (-r) % 2 ** 32
+    return False, r - 2 ** 32 if r >= 2 ** 31 else r
 
 
 def py_atoi_ub(txt):
